@@ -159,6 +159,7 @@ def gen_cases(tier, seed):
         if mod and r.random() < (0.15 if tier == 'quick' else 0.3):
             cases.append({'kind': 'awslambda', 'shape': 'awslambda', 'src': s, 'entrypoint': r.choice(mod + [None]), 'opts': {}, 'prop': PROP})
     for i, c in enumerate(cases):
+        c.setdefault('timeout', 150 if c.get('shape') in ('modgen', 'corpus') or str(c.get('shape')).startswith('exhaustion') else 40)
         c['want_sample'] = i % 500 == 0
     return cases
 
